@@ -42,6 +42,7 @@
  * \endinternal
  */
 
+#include <cstdio>
 #include "tsgCandidateManager.hpp"
 
 namespace TasGrid{
@@ -116,12 +117,14 @@ void constructCommon(ModelSignature model,
     std::string filename = checkpoint_filename;
     std::string filename_old = checkpoint_filename + "_old";
 
+    bool main_is_current = false; // indicates whether the main file already holds the current state of the grid
     if (!filename.empty()){ // recover from an existing checkpoint
         std::ifstream infile(filename, std::ios::binary);
         try{ // attempt to recover from filename
             if (!infile.good()) throw std::runtime_error("missing main checkpoint");
             grid.read(infile, mode_binary);
             complete.read(infile);
+            main_is_current = true;
         }catch(std::runtime_error &){
             // main file is missing or is corrupt, try the older version
             std::ifstream oldfile(filename_old, std::ios::binary);
@@ -135,7 +138,9 @@ void constructCommon(ModelSignature model,
         }
     }
 
-    if (!filename.empty()){ // initial checkpoint
+    if (!filename.empty() && !main_is_current){ // initial checkpoint
+        // if the main file is valid it must not be rewritten here, the backup may hold an older state and
+        // a crash in the middle of the write would lose the samples that are stored only in the main file
         std::ofstream ofs(filename, std::ios::binary);
         grid.write(ofs, mode_binary); // write grid to current
         complete.write(ofs);
@@ -146,7 +151,7 @@ void constructCommon(ModelSignature model,
         if (!filename.empty()){
             { // copy current into old and write to current
                 std::ifstream current_state(filename, std::ios::binary);
-                std::ofstream previous_state(filename, std::ios::binary);
+                std::ofstream previous_state(filename_old, std::ios::binary);
                 previous_state << current_state.rdbuf();
             }
             std::ofstream ofs(filename, std::ios::binary);
@@ -320,6 +325,10 @@ void constructCommon(ModelSignature model,
 
         load_complete(); // flush completed jobs
     }
+
+    // finished, the main file holds the final state: the backup copy is not needed any more
+    // and, if left behind, it could be mistaken for the state of a later run that uses the same name
+    if (!filename.empty()) std::remove(filename_old.c_str());
 }
 
 /*!
